@@ -149,6 +149,18 @@ macro_rules! check {
     }};
 }
 
+/// Size guard of a harness buffer: the resampler's demand must fit the (concrete) buffer of the
+/// scenario. Asserted FIRST (a demand beyond the bound is reported, not pruned), then assumed so
+/// that the rest of the harness stays in bounds.
+#[macro_export]
+macro_rules! fit {
+    ($nd:expr, $c:expr, $tag:expr) => {{
+        let c: bool = $c;
+        $crate::check!(c, $tag);
+        $nd.assume(c);
+    }};
+}
+
 /// Reachability / vacuity witness: must come back SATISFIED under Kani.
 #[macro_export]
 macro_rules! cover {
